@@ -124,6 +124,30 @@ def run(tier):
                                  site="ChangePoint.__call__:far-side")
             except Exception as ex:
                 ck.violation("GpRegressor with a sharp change-point raised", {**idn, "error": repr(ex)[:300]}, site="ChangePoint.__call__:far-side")
+        # two regressors built from the SAME kernel and mean objects (other data for the second one) are independent of each other
+        try:
+            from inference.gp import GpRegressor
+            kinst, cth_ = G.build_kernel(pb["kern"], Q.shape[1], n)
+            minst, mth_ = G.build_mean(pb["mean"])
+            hp_ = np.array(list(mth_) + list(cth_), dtype=float)
+            Xf = np.array(pb["X"], dtype=float)
+            sig_ = G.rmat(pb["sig"])
+            kw_ = {"y_cov": sig_} if sig_.any() else {}
+            import warnings as _w
+            with _w.catch_warnings(), np.errstate(all="ignore"):
+                _w.simplefilter("ignore")
+                gA = GpRegressor(x=Xf if Q.shape[1] > 1 else Xf[:, 0], y=np.array(pb["y"], dtype=float), hyperpars=hp_.copy(), kernel=kinst, mean=minst, **kw_)
+                gB = GpRegressor(x=(Xf * 1.5 + 0.25) if Q.shape[1] > 1 else (Xf * 1.5 + 0.25)[:, 0], y=np.array(pb["y"], dtype=float) + 1.0,
+                                 hyperpars=hp_.copy(), kernel=kinst, mean=minst, **kw_)
+                gA.set_hyperparameters(hp_.copy())
+                qq = Q if Q.shape[1] > 1 else Q[:, 0]
+                muA, sdA = gA(qq)
+            ck.case(str(idn) + "shared-kernel")
+            if not (GE.close(muA, base_mu, base_yscale) and GE.close(np.asarray(sdA) ** 2, np.diag(base_cov), base_scale)):
+                ck.violation("a regressor is unaffected by another regressor built from the same covariance-function and mean-function objects",
+                             {**idn, "want_mean": base_mu, "got_mean": muA, "second_regressor_x": (Xf * 1.5 + 0.25).tolist()}, site="GpRegressor.__init__:shared-kernel")
+        except Exception as ex:
+            ck.violation("regressors sharing a kernel object raised", {**idn, "error": repr(ex)[:300]}, site="GpRegressor.__init__:shared-kernel")
         # m(x) and m(q) are the same function also far from the origin (data translated by ~2^40, non-dyadic mean parameters)
         try:
             err = G.mean_consistency(pb["mean"], pb["X"], 2.0 ** 40 + 1234567 * 2.0 ** -12)
